@@ -337,6 +337,13 @@ def parse (pinned : Bool) (st : PState) (env : Str → Option Str) (argv : List 
 def mergeCfg (g c : List (Str × CfgVal)) : List (Str × CfgVal) :=
   g.map (fun kv => (kv.1, (alookup kv.1 c).getD kv.2)) ++ c.filter (fun kv => (alookup kv.1 g).isNone)
 
+/-- one config section as `DoitMain.__init__` assembles it: the `extra_config` dict of the API caller, updated with the
+    section of every config file in order (`pyproject.toml`, then `doit.cfg`): `dict.update` per KEY, so a later layer
+    replaces the keys it sets and keeps the others -/
+def mergeLayers : List (List (Str × CfgVal)) → List (Str × CfgVal)
+  | [] => []
+  | l :: rest => rest.foldl mergeCfg l
+
 def withDodo (dodo : List (Str × Val)) : Except Err (Params × List Str) → Except Err (Params × List Str)
   | .error e => .error e
   | .ok (p, pos) => .ok (updateDefaults dodo p, pos)
